@@ -111,6 +111,13 @@ func fixtures() ([]interface{}, [][]byte) {
 	return vals, bs
 }
 
+// one list in a typed element slot, in an interface slot and in a typed field
+type sharedLists struct {
+	LL  [][]int32
+	Any []interface{}
+	One []int32
+}
+
 type mapThenLists struct {
 	M  zoo.NamedMap
 	L1 []int32
@@ -180,6 +187,14 @@ func altValues(fam string, seed int64, tier string) []interface{} {
 		// the same map twice in interface slots (of a list, of a map field): the second is a back-reference
 		m1 := map[string]int32{"a": 1}
 		vs = append(vs, []interface{}{m1, m1}, zoo.BadInMap{M: map[string]interface{}{"x": m1, "y": m1}}, []interface{}{zoo.NamedMap{"k": 1}, "s"})
+		// a list that contains itself, and a list whose element refers back to it from a typed field
+		self := []interface{}{nil, int32(7)}
+		self[0] = self
+		up := []interface{}{nil, "tail"}
+		up[0] = &zoo.BadInList{L: up}
+		vs = append(vs, self, up)
+		sl := []int32{1, 2}
+		vs = append(vs, &sharedLists{LL: [][]int32{sl}, Any: []interface{}{sl}, One: sl}, sharedLists{Any: []interface{}{sl, sl}, One: sl})
 		nm1 := zoo.NamedMap{"k": 2}
 		vs = append(vs, []interface{}{nm1, nm1})
 		return vs
@@ -346,6 +361,17 @@ func runAltReplay(fam string, seed int64, tier, vectors, out string, shards, onl
 		P := proj.New(nm)
 		ev := proj.M{"ev": "alt", "mode": mode, "vid": vec.Vid, "in": vec.B, "v": P.Project(v).JSON(), "r0ok": b2i(r0.ok),
 			"label": fmt.Sprintf("%s/v%d/%T", fam, vec.Vid, v)}
+		if l, ok := v.([]interface{}); ok && len(l) > 0 {
+			if l0, ok := l[0].([]interface{}); ok && len(l0) > 0 && &l0[0] == &l[0] {
+				// a Go slice that contains itself: its variable-length rendering is the known finding KF-C03-selfListVariable
+				ev["sig"] = proj.M{"shape": "list containing itself"}
+			}
+		}
+		switch v.(type) {
+		case sharedLists, *sharedLists:
+			// one []int32 in a typed element slot, an interface slot and a typed field: KF-C03-sharedListUntypedFirst
+			ev["sig"] = proj.M{"shape": "one list in typed and interface slots"}
+		}
 		if vec.Dropped == nil {
 			vec.Dropped = [][]int{}
 		}
